@@ -176,6 +176,13 @@ def run(ctx, report):
                     elif r0 < 0.4:
                         vals = vals + ['EXTRA']
                     scases.append((r, n.id + '*' + '*'.join(vals)))
+            # every DTP node (all of them, not a sample): each format its DTP02 allows x a value of each date / time shape
+            for r, n in refs:
+                if type(n).__name__ == 'segment_if' and n.id == 'DTP' and len(n.children) >= 3:
+                    quals = [x for x in n.children[0].valid_codes if x][:1] or ['472']
+                    for q in [x for x in n.children[1].valid_codes if x in ('D8', 'RD8', 'TM', 'DT')]:
+                        for v in ('20110101', '20110101-20110220', '200406180800', '1200', '20110230', '2011010'):
+                            scases.append((r, 'DTP*%s*%s*%s' % (quals[0], q, v)))
             for r, t in scases:
                 sargs += ['.'.join(str(i) for i in r), '~*:', t]
             if scases and ctx['driver_ok']:
@@ -190,6 +197,64 @@ def run(ctx, report):
                     if io.startswith('!'):
                         report.fail('C15:segment-raises:%s' % io, 'segment validation raised %s' % io,
                                     {'map': name, 'ref': list(r), 'segment': t})
+                        continue
+                    # DTP: the value (DTP03) is judged against the format NAMED by the qualifier sent (DTP02), not against any
+                    # format the map allows there
+                    parts_ = t.split('*')
+                    if parts_[0] == 'DTP' and len(parts_) >= 4 and parts_[2] in ('D8', 'RD8', 'TM', 'DT', 'D6') and parts_[3] != '' \
+                            and ':' not in parts_[3] and all(32 <= ord(c_) < 127 for c_ in parts_[3]):
+                        fits_ = fits_format(parts_[2], parts_[3])
+                        nd_ = mapser.node_by_ref(m, r)
+                        try:
+                            de3_ = m.data_elements.get_by_elem_num(nd_.children[2].data_ele)
+                            ok_q_ = parts_[2] in nd_.children[1].valid_codes and nd_.children[2].usage != 'N' and \
+                                de3_['min_len'] <= len(parts_[3]) <= de3_['max_len'] and len(parts_) <= len(nd_.children) + 1
+                        except Exception:  # noqa
+                            ok_q_ = False
+                        if fits_ is None or not ok_q_:
+                            continue               # judged only when the qualifier is one the node allows and the length is in range
+                        cur_, code8 = 0, False
+                        for ev_ in io.split('|')[1:]:
+                            q_ = ev_.split(',')
+                            if q_[0] == 'A' and q_[3] == 'F':
+                                cur_ = int(q_[2])
+                            elif q_[0] == 'E' and cur_ == 3 and q_[1] == '8':
+                                code8 = True
+                        report.count('dtp-format-judged')
+                        if code8 == fits_:
+                            report.fail('C15:dtp-format:%s:%s' % (parts_[2], 'accepted' if fits_ is False else 'rejected'),
+                                        'DTP03 %r with qualifier %s: format error reported = %s, but the value %s that format' % (
+                                            parts_[3], parts_[2], code8, 'fits' if fits_ else 'does not fit'),
+                                        {'map': name, 'ref': list(r), 'segment': t})
+
+
+def _date8(v):
+    if len(v) != 8 or not v.isdigit() or not all(c in '0123456789' for c in v):
+        return False
+    y, mo, d_ = int(v[:4]), int(v[4:6]), int(v[6:])
+    if y < 1800 or not 1 <= mo <= 12 or d_ < 1:
+        return False
+    dim = [31, 29 if (y % 4 == 0 and (y % 100 != 0 or y % 400 == 0)) else 28, 31, 30, 31, 30, 31, 31, 30, 31, 30, 31][mo - 1]
+    return d_ <= dim
+
+
+def _time(v):
+    if len(v) not in (4, 6, 7, 8) or not all(c in '0123456789' for c in v):
+        return False
+    return v[:2] <= '23' and v[2:4] <= '59' and (len(v) == 4 or v[4:6] <= '59')
+
+
+def fits_format(fmt, v):
+    """does v fit the X12 date / time format named fmt (my reading; D6 is left to the implementation: windowing)"""
+    if fmt == 'D8':
+        return _date8(v)
+    if fmt == 'RD8':
+        return v.count('-') == 1 and all(_date8(x) for x in v.split('-'))
+    if fmt == 'TM':
+        return _time(v)
+    if fmt == 'DT':
+        return len(v) == 12 and _date8(v[:8]) and _time(v[8:])
+    return None
 
 
 def de_type(m, node):
